@@ -14,13 +14,17 @@ import (
 	"context"
 	"encoding/json"
 	"fmt"
+	"io"
+	"net/http"
 	"net/url"
 	"os"
 	"os/exec"
 	"os/signal"
 	"path/filepath"
 	"sort"
+	"strconv"
 	"strings"
+	"sync"
 	"syscall"
 	"time"
 
@@ -181,6 +185,100 @@ func (v s3View) all() []entry {
 	return out
 }
 
+// plainObjects is a dumb HTTP object store (WebDAV / bucket behind a proxy): PUT bodies are kept
+// exactly as they arrive and served back on GET; nothing is decoded or validated.
+type plainObjects struct {
+	mu   sync.Mutex
+	objs map[string][]byte
+	unc  bool
+}
+
+func (ps *plainObjects) ServeHTTP(w http.ResponseWriter, r *http.Request) {
+	switch r.Method {
+	case "PUT":
+		b, err := io.ReadAll(r.Body)
+		if err != nil {
+			w.WriteHeader(http.StatusBadRequest)
+			return
+		}
+		ps.mu.Lock()
+		ps.objs[r.URL.Path] = b
+		ps.mu.Unlock()
+		w.WriteHeader(http.StatusOK)
+	case "GET", "HEAD":
+		ps.mu.Lock()
+		b, ok := ps.objs[r.URL.Path]
+		ps.mu.Unlock()
+		if !ok {
+			w.WriteHeader(http.StatusNotFound)
+			return
+		}
+		w.Header().Set("Content-Length", strconv.Itoa(len(b)))
+		w.WriteHeader(http.StatusOK)
+		if r.Method == "GET" {
+			w.Write(b)
+		}
+	default:
+		w.WriteHeader(http.StatusMethodNotAllowed)
+	}
+}
+
+func (ps *plainObjects) path(id desync.ChunkID) string {
+	s := id.String()
+	return "/" + s[:4] + "/" + s + chunkExt(ps.unc)
+}
+
+func (ps *plainObjects) get(id desync.ChunkID) ([]byte, bool, error) {
+	ps.mu.Lock()
+	b, ok := ps.objs[ps.path(id)]
+	ps.mu.Unlock()
+	if !ok {
+		return nil, false, nil
+	}
+	p, err := decodeStored(b, ps.unc)
+	return p, true, err
+}
+
+func (ps *plainObjects) all() []entry {
+	ps.mu.Lock()
+	defer ps.mu.Unlock()
+	var out []entry
+	for k, b := range ps.objs {
+		id, ok := idFromName(k[strings.LastIndex(k, "/")+1:], ps.unc)
+		if !ok {
+			continue
+		}
+		plain, derr := decodeStored(b, ps.unc)
+		out = append(out, entry{id: id, plain: plain, err: derr})
+	}
+	sort.Slice(out, func(i, j int) bool { return bytes.Compare(out[i].id[:], out[j].id[:]) < 0 })
+	return out
+}
+
+func (ps *plainObjects) put(id desync.ChunkID, plain []byte) {
+	ps.mu.Lock()
+	ps.objs[ps.path(id)] = encodeStored(plain, ps.unc)
+	ps.mu.Unlock()
+}
+
+// frontedSource is the source of a Copy: every GetChunk passes the in-memory front first (call
+// log, scheduled GetChunk faults, missing chunks), the chunk itself comes from the real store, in
+// that store's storage format.
+type frontedSource struct {
+	front *dx.MemStore
+	inner desync.Store
+}
+
+func (f frontedSource) GetChunk(id desync.ChunkID) (*desync.Chunk, error) {
+	if _, err := f.front.GetChunk(id); err != nil {
+		return nil, err
+	}
+	return f.inner.GetChunk(id)
+}
+func (f frontedSource) HasChunk(id desync.ChunkID) (bool, error) { return f.inner.HasChunk(id) }
+func (f frontedSource) Close() error                             { return f.inner.Close() }
+func (f frontedSource) String() string                           { return "fronted:" + f.inner.String() }
+
 // target is one store under test plus the harness' handles on it.
 type target struct {
 	kind    string // mem | local | s3 | http
@@ -268,6 +366,35 @@ func newTarget(c Case, dir string, mem *dx.MemStore) *target {
 				return del, f, ok
 			},
 			close: func() { undo(); srv.Close() }}
+	case "http-plain":
+		ps := &plainObjects{objs: map[string][]byte{}, unc: c.Unc}
+		fs := &faultServer{counts: map[string]int{}, failAt: map[string]map[int]bool{}, perKey: map[string]int{}}
+		fs.start(ps)
+		fs.srv.Config.SetKeepAlivesEnabled(false)
+		u, _ := url.Parse(fs.url())
+		st, err := desync.NewRemoteHTTPStore(u, opt)
+		if err != nil {
+			panic(err)
+		}
+		return &target{kind: "http-plain", tag: "http-plain:", desc: fmt.Sprintf("RemoteHTTP(unc=%v, error-retry=%d) -> object store keeping PUT bodies verbatim", c.Unc, retry), store: st, view: ps, put: ps.put,
+			failAt: func(kind string, k int) bool {
+				if kind != "has" && kind != "store" {
+					return false
+				}
+				fs.fail(kind, k)
+				return true
+			},
+			verdict: func() ([]string, bool, bool) {
+				fs.mu.Lock()
+				var del []string
+				for _, d := range fs.delivered {
+					del = append(del, "http-plain:"+d)
+				}
+				fs.mu.Unlock()
+				f, ok := retryVerdict(retry, fs.maxPerKey())
+				return del, f, ok
+			},
+			close: func() { st.Close(); fs.srv.Close() }}
 	case "http":
 		fs := newFaultServer(filepath.Join(dir, "httpstore"), true)
 		fs.srv.Config.SetKeepAlivesEnabled(false) // connection goroutines end with their request
